@@ -215,7 +215,12 @@ def _notrailing(ck, fx, cg):
                 if p.get("k") in ("Call", "MethodCall"):
                     uses.append(callee_name(p) or p.get("name"))
                     break
-    writing = [u for u in uses if not (u or "").endswith("::flush")]     # flush emits no bytes of its own
+    from .c08 import _wraps_flush
+    flushers = set()
+    for n, ps in walk_body(b):
+        if n.get("k") in ("Call", "MethodCall") and _wraps_flush(fx, n):
+            flushers.add(callee_name(n) or n.get("name"))
+    writing = [u for u in uses if not (u or "").endswith("::flush") and u not in flushers]     # flush emits no bytes of its own
     ck.ob("R4.notrailing", "compile action writes only through the serializer", writing == [A.get("cli.bc.serialize")], loc(b), "uses of the sink: %s" % uses)
     # the file must contain nothing but the layout: the output file is created/truncated when opened
     from . import shared
